@@ -158,6 +158,9 @@ F-C12-1, F-C18-1).
   predicate's domain now (the model comparison, which follows the code's signed distance, still covers them), and so
   are launches that leave the object towards -z (a stop behind a mirror whose entrance pupil lies behind the start
   plane: the rays then meet the far sheet of the mirror - the actual cause of the 40 waves).
+* C19 thorough (round-7 addition): after `remove_surface(stop)` the lens has no stop surface; the real `from_dict`
+  accepts its dictionary, the model's reader does not.  Histories that edit the surface list are outside the model
+  (counted in the evidence); the predicates on the real code (dictionary equality, identical rays, later use) stay hard.
 * C15 thorough (round-7 stream), clause (b): on a set-up whose uncompensated merit (3e-11) lies below the
   compensator's tolerance (1e-5) the recorded run left the compensator where it was and the re-run moved it by 6e-7;
   "as good as the re-run" now carries the optimiser's tolerance (`+ 10 tol`) like the other optimiser comparisons.
